@@ -67,6 +67,18 @@ class OperatorCheck(Check):
             qspec = ("list", q2 if scope == "B1" else qs2)
             out.append(opsem.make_task(scopes.SIG2, conds, self.weakly, self.cfgs, qspec, via=via, wsig=WSIG2, cls=cls,
                                        scope=scope, keys=alt_keys(n, len(conds)) if via == "api" else None))
+        # bases containing the SAME conditional twice (same formulas, same text, different keys): [c1, c1, c2] for every
+        # structure representative [c1, c2] of the literal pairs
+        reps2, _st = scopes.structural_scope(scopes.L3, scopes.SIG3, 2, ("strong", "weak-finite", "weak-nofinite"), seed, 1, minsize=2)
+        ndup = 0
+        for i, (pair, _cls) in enumerate(reps2):
+            for conds in ([pair[0], pair[0], pair[1]], [pair[0], pair[1], pair[1]]):
+                cls = ref.classify([forms.sem(x, scopes.SIG3) for x in conds], forms.allmask(scopes.SIG3))
+                if cls in self.want and len(conds) <= (self.maxn[tier] if isinstance(self.maxn, dict) else self.maxn):
+                    out.append(opsem.make_task(scopes.SIG3, conds, self.weakly, self.cfgs, ("type", "T21", 0, True), via="api", cls=cls,
+                                               scope="B3dup"))
+                    ndup += 1
+        self.stats["B3dup"] = ndup
         for alpha_name, size, per_class, tq in self.b3[tier]:
             size = min(size, self.maxn[tier] if isinstance(self.maxn, dict) else self.maxn)
             reps, st = scopes.structural_scope(getattr(scopes, alpha_name), scopes.SIG3, size, self.want, seed, per_class)
